@@ -1,6 +1,7 @@
 package vc
 
 import (
+	"sort"
 	"strings"
 	"fmt"
 	"go/token"
@@ -184,6 +185,21 @@ func (e *Exec) flow(fr *Frame, cur *State, from, to *ssa.BasicBlock, st *State, 
 	for h, li := range fr.loops {
 		if li.noBreak && li.body[from] && !li.body[to] && from != h {
 			e.oblige(st, "full-loop", li.key+":left-before-the-end", Not(st.pc), e.posOf(from.Instrs[len(from.Instrs)-1]))
+		}
+	}
+	if len(fr.loops) > 0 {
+		var hs []*ssa.BasicBlock
+		for h, li := range fr.loops {
+			if len(li.exits) > 0 && li.body[from] && !li.body[to] {
+				hs = append(hs, h)
+			}
+		}
+		sort.Slice(hs, func(i, j int) bool { return hs[i].Index < hs[j].Index })
+		for _, h := range hs {
+			li := fr.loops[h]
+			for _, x := range li.exits {
+				e.oblige(st, "loop-exit", fr.path+li.key+":"+x.name, x.eval(li.hv, li.hv, st, from.Instrs[len(from.Instrs)-1]), e.posOf(from.Instrs[len(from.Instrs)-1]))
+			}
 		}
 	}
 	if to.Dominates(from) {
